@@ -30,10 +30,25 @@ def units(tier):
     for pen, fi in ((('L1', False), ('L1', True)) if q else (('L1', False), ('L1', True), ('WeightedL1', True))):
         runs.append(dict(solver='ProxNewton', datafit='Quadratic', penalty=pen, X='corr32', max_iter=1, max_pn_iter=1, p0=2,
                          fit_intercept=fi, ws_strategy='subdiff', warm=False))
+    # history entry after an accepted extrapolation at the very last epoch (contract stub, see C03)
+    for fi in ((False,) if q else (False, True)):
+        runs.append(dict(solver='AndersonCD', datafit='Quadratic', penalty='L1', X='corr32', max_iter=1, max_epochs=1,
+                         max_epochs_unpatched=7, acc_stub=1, p0=2, fit_intercept=fi, ws_strategy='subdiff', warm=True))
+    runs.append(dict(solver='GramCD', datafit='Quadratic', penalty='L1', X='corr32', max_iter=1, max_iter_unpatched=7,
+                     acc_stub=1, use_acc=True, greedy_cd=False, warm=True, fit_intercept=False))
     for c in runs:
         cid = ','.join('%s=%s' % (k, c[k]) for k in sorted(c))
         us.append(Unit('C17/D/run[%s]' % cid, ST.u_run, dict(cfg=c, want=('history',)), wall_s=150, max_paths=5000,
-                       timeout_ms=8000, patched=c['solver'] == 'ProxNewton'))
+                       timeout_ms=8000, patched=c['solver'] == 'ProxNewton' or bool(c.get('acc_stub'))))
+    # returned stopping value on a tolerance stop right after an accepted extrapolation (GramCD keeps scores across
+    # iterations): stop_crit must be the violation of the returned point
+    from checks.c01 import u_cert
+    for pen, Xn in ((('L1', 'tri22'),) if q else (('L1', 'tri22'), ('L1', 'corr32'), ('WeightedL1', 'corr32'))):
+        c = dict(solver='GramCD', kind='acc', datafit='Quadratic', penalty=pen, X=Xn, max_iter=2, max_iter_unpatched=14,
+                 acc_stub=1, use_acc=True, greedy_cd=False, warm=not q, fit_intercept=False)
+        cid = ','.join('%s=%s' % (k, c[k]) for k in sorted(c))
+        us.append(Unit('C17/D/stop_crit[%s]' % cid, u_cert, dict(cfg=c), wall_s=150, max_paths=5000, timeout_ms=8000,
+                       patched=True))
     return us
 
 
